@@ -19,8 +19,11 @@ REGISTRY = {
     "T5eof": ("T5eof.v", "t5_eof", "gen"),
     "T5rot": ("T5rot.v", "t5_rot", "gen"),
     "T5pop": ("T5pop.v", "t5_pop", "gen"),
+    "T5opa": ("T5opa.v", "t5_opa", "gen"),
     "T5whiten": ("T5whiten.v", "t5_whiten", "gen"),
+    "T5boot": ("T5boot.v", "t5_boot", "gen"),
     "T6san": ("T6san.v", "t6_sanitizer", "gen"),
+    "T6lat": ("T6lat.v", "t6_lat", "gen"),
     "T7ser": ("T7ser.v", "t7_serial", "gen"),
     "T7unseen": ("T7unseen.v", "t7_unseen", "gen"),
     "T8": ("T8.v", "t8_kwargs", "gen"),
